@@ -72,6 +72,36 @@ def no_member_after_handler(run, ol, tag):
                   % sorted({q.render(ol, n) for n in late})[:4], 'nothing of *this is touched after the handler has been invoked')
 
 
+def cancel_aborts_rule(run, cn, tag, rule='R6'):
+    """cancel() completes every queued lookup with operation_aborted, unconditionally (shared with C04)."""
+    fx = run.fx
+    # every queued lookup is completed with operation_aborted - also one whose own result is an error
+    posts_ = [fl_ for fl_ in handlers.flows_in(fx, cn) if fl_.dest == 'post']
+    for fl_ in posts_:
+        txt_ = p04_closure_text(fx, cn, fl_)
+        lit = 'operation_aborted' in txt_
+        sets_ = [n_ for n_ in cn.all_nodes() if ((n_['k'] == 'call' and n_.get('opc') == '=') or (n_['k'] == 'bin' and n_['op'] == '=')) and 'operation_aborted' in q.render(cn, n_)]
+        uncond = [n_ for n_ in sets_ if not [1 for a_, p_ in q.guards_at(cn, n_) if not _is_loop_guard(cn, a_)] and q.precedes(cn, n_, fl_.site)]
+        run.check(lit or bool(uncond), rule, 'cancel-aborts-with-operation-aborted', '%s<%s>' % (cn.norm, tag), cn.loc(fl_.site),
+                  'cancel() completes a queued lookup with the error stored in its entry, and operation_aborted is stored there only conditionally: a lookup that would have failed is completed early with ITS OWN error (host_not_found) instead of operation_aborted',
+                  'the posted completion carries operation_aborted unconditionally')
+
+
+def p04_closure_text(fx, fn, fl):
+    import p04
+    return p04.closure_text(fx, fn, fl)
+
+
+def _is_loop_guard(fn, atom):
+    """the condition of a loop (range-for end test etc.), not an `if`"""
+    p = fn.parent(atom)
+    while p is not None and p['k'] in ('cast', 'un', 'bin', 'call', 'paren'):
+        if p['k'] in ('for', 'while', 'rangefor', 'do'):
+            return True
+        p = fn.parent(p)
+    return p is not None and p['k'] in ('for', 'while', 'rangefor', 'do')
+
+
 def check(run):
     fx = run.fx
     ars = fx.fn(R + '::async_resolve')
@@ -279,6 +309,7 @@ def check(run):
         run.touch(cn)
         tag = 'udp' if 'udp' in cn.name else 'tcp'
         sw = [c for c in cn.calls() if (c.get('callee') or '').split('::')[-1] == 'swap' and 'm_queue' in q.render(cn, c)]
+        cancel_aborts_rule(run, cn, tag)
         run.check(bool(sw) and q.on_all_paths(cn, sw), 'R2k', 'cancel-swaps', '%s<%s>' % (cn.norm, tag), cn.loc(), 'cancel() does not take the whole queue out before completing entries', 'm_queue.swap(local) first')
     # mutation kinds over the whole class
     KINDS = {R + '::async_resolve': {'push_front', 'push_back'}, R + '::on_lookup': {'pop_front'}, R + '::cancel': {'swap'}}
